@@ -305,3 +305,18 @@ M("C17", "include-scanned-under-parent-name", PST, "            tokens = scanner
 M("C17", "nodeerror-omits-line-text", NODES, '{self.file_info.position.file.filename}:{self.file_info.position.line} {self.file_info.position.get_line()}"', '{self.file_info.position.file.filename}:{self.file_info.position.line}"', "C17.R1")
 M("C17", "handle-line-from-accept-prefix", SCN, "            self.pos += len(prefix)\n            return True", "            self.pos += len(prefix)\n            self._handle_line()\n            return True", "C17.R3")
 M("C17", "data-node-uses-late-token", PST, '        return DataNode("db", expressions, keyword)', '        return DataNode("db", expressions, p.current())', "C17.R1")
+
+# ------------------------------------------------------------------ C18
+SCR = "script/__init__.py"
+M("C18", "ascending-candidates", SCR, "            for i in range(min(len(text), self.max_text_length), 0, -1):", "            for i in range(1, min(len(text), self.max_text_length) + 1):", "C18.R1")
+M("C18", "single-char-only", SCR, "            for i in range(min(len(text), self.max_text_length), 0, -1):", "            for i in range(1, 0, -1):", "C18.R1")
+M("C18", "hit-without-break", SCR, "                    binary_text += decoded\n                    current_position += i\n                    break", "                    binary_text += decoded\n                    current_position += i", "C18.R1",
+  edits=[(SCR, "                    binary_text += decoded\n                    current_position += i\n                    break", "                    binary_text += decoded\n                    current_position += i\n                    i = 0")])
+M("C18", "unknown-emits-question-mark", SCR, "            else:\n                current_position += 1\n\n        return bytes(binary_text)", "            else:\n                binary_text += b\"?\"\n                current_position += 1\n\n        return bytes(binary_text)", "C18.R1")
+M("C18", "escape-base-10", SCR, "binary_text += bytes([int(matches.group(\"byte\"), 16)])", "binary_text += bytes([int(matches.group(\"byte\"), 10)])", "C18.R1")
+M("C18", "escape-after-table", SCR, "            if matches:\n                binary_text += bytes([int(matches.group(\"byte\"), 16)])\n                current_position += len(matches.group())\n                continue\n", "", "C18.R1")
+M("C18", "max-text-length-of-values", SCR, "self.max_text_length = len(max(self.lookup.keys(), key=len))", "self.max_text_length = len(max(self.lookup.values(), key=len))", "C18.R1")
+M("C18", "text-uses-root-table", NODES, "self.table = self.resolver.current_scope.get_table()", "self.table = self.resolver.scopes[0].get_table()", "C18.R2")
+M("C18", "table-loaded-into-root", NODES, "resolver.current_scope.table = Table(self.table_path)", "resolver.scopes[0].table = Table(self.table_path)", "C18.R2")
+M("C18", "pair-hex-one-at-a-time", SCR, "zip(*[iter(value)] * 2, strict=True)", "zip(*[iter(value)] * 1, strict=True)", "C18.R3")
+M("C18", "to-text-ascending", SCR, "            for i in range(min(len(remainder), self.max_bytes_length), 0, -1):", "            for i in range(1, min(len(remainder), self.max_bytes_length) + 1):", "C18.R1")
